@@ -205,8 +205,12 @@ func VH_C19_cross() {
 	}
 	e1 := a.Run(s1)
 	vAssert(e1 != nil, "ill-formed-source-is-rejected")
+	m1 := ""
+	if e1 != nil {
+		m1 = e1.Error()
+	}
 	if isSyntax(e1) {
-		vC19LangOnly(e1.Error(), la, "first/")
+		vC19LangOnly(m1, la, "first/")
 	}
 	e2 := vC19Op(b, op2, s2)
 	vReach("second")
@@ -215,6 +219,10 @@ func VH_C19_cross() {
 	}
 	if e2 != nil {
 		vObserve("e2", e2.Error())
+	}
+	// an error value the host kept reads the same after another VM worked
+	if e1 != nil {
+		vAssert(e1.Error() == m1, "a-kept-error-keeps-its-text")
 	}
 	e3 := vC19Op(a, op3, s1)
 	if isSyntax(e3) {
